@@ -130,11 +130,19 @@ func main() {
 	realStdout := os.Stdout
 	devnull, _ := os.OpenFile("/dev/null", os.O_WRONLY, 0)
 	os.Stdout = devnull
+	if os.Getenv("VERIF_ENGINE_STDOUT") != "" {
+		os.Stdout = os.Stderr
+	}
 	emit := func(prefix string, v any) {
 		b, _ := json.Marshal(v)
 		fmt.Fprintf(realStdout, "%s %s\n", prefix, b)
 	}
 
+	if drv == "dump" {
+		dumpReplay(flReplay)
+		os.RemoveAll(flScratch)
+		return
+	}
 	if drv == "replay" {
 		b, err := os.ReadFile(flReplay)
 		if err != nil {
